@@ -106,7 +106,7 @@ pub fn world_of(prop: &str) -> &'static [&'static str] {
         "C07" | "C08" | "C16" | "C17" => &["B"],
         "C03" | "C05" | "C06" | "C09" | "C10" | "C14" | "C15" => &["C"],
         "C11" | "C12" | "C18" => &["D"],
-        "C20" => &["A", "B", "C"],
+        "C20" => &["A", "B", "C", "D"],
         _ => &[],
     }
 }
@@ -116,7 +116,6 @@ pub fn gen_in(world: &str, prop: &str, mon: &str, seed: u64, run: u64, thorough:
         "A" => run_generated::<crate::world_a::WorldA>(prop, mon, seed, run, thorough),
         "B" => run_generated::<crate::world_b::WorldB>(prop, mon, seed, run, thorough),
         "C" => run_generated::<crate::world_c::WorldC>(prop, mon, seed, run, thorough),
-        #[cfg(feature = "worlds_bcd")]
         "D" => run_generated::<crate::world_d::WorldD>(prop, mon, seed, run, thorough),
         _ => panic!("unknown world {}", world),
     }
@@ -127,7 +126,6 @@ pub fn replay_in(trace: &Trace, mon: &str) -> RunOutput {
         "A" => run_replay::<crate::world_a::WorldA>(trace, mon),
         "B" => run_replay::<crate::world_b::WorldB>(trace, mon),
         "C" => run_replay::<crate::world_c::WorldC>(trace, mon),
-        #[cfg(feature = "worlds_bcd")]
         "D" => run_replay::<crate::world_d::WorldD>(trace, mon),
         w => panic!("unknown world {}", w),
     }
